@@ -54,8 +54,13 @@ Inductive op :=
                                      the master has them as s = STAGING, or STARTING / RUNNING with the
                                      update still on its way *)
 | ORun (t : N)                    (* the executor of t reports TASK_RUNNING (for a held task: the first) *)
-| OLost (t : N).                  (* the master declares t lost (agent unreachable) but still has it:
+| OLost (t : N)                   (* the master declares t lost (agent unreachable) but still has it:
                                      TASK_LOST update, the task stays alive at the master *)
+| OLoseAnswers                    (* the reconciliation answers still in flight are lost (the connection
+                                     drops before they are delivered, or the RECONCILE call failed) *)
+| OCrashLost (p : point) (k : N)  (* OCrash p k whose reconciliation is lost, then the automatic
+                                     re-subscription: = OCrash p k; OLoseAnswers; OReconnect *)
+| OReconnectLost.                 (* = OReconnect; OLoseAnswers; OReconnect *)
 
 Inductive call :=
 | CSubscribe (carried : bool) (id : N)
@@ -204,6 +209,25 @@ Definition crash (w : world) : world :=
   mkW (w_failover w) (w_store w) (w_nextfw w) (w_master w)
       (match w_store w with Some v => v | None => 0 end) [] [] (w_ntask w) (w_nenv w) [].
 
+(* the answers in flight are lost and the controller subscribes again *)
+Definition resubscribe_after_loss (wc : world * list call) : world * list call :=
+  let '(w2, c2) := wc in
+  let '(w3, c3) := subscribe (set_w_pending w2 []) in (w3, c2 ++ c3).
+
+(* the core dies while a new environment of k tasks stands at p; the new life subscribes *)
+Definition crash_step (w : world) (p : point) (k : N) : world * list call :=
+  let '(w1, c1) :=
+    match p with
+    | PIdle => (w, [])
+    | PBeforeLaunch =>
+      let '(w0, c0) := cleanup w in
+      (mkW (w_failover w0) (w_store w0) (w_nextfw w0) (w_master w0) (w_mem w0) (w_roster w0) (w_envs w0)
+           (w_ntask w0) (N.succ (w_nenv w0)) (w_pending w0), c0)
+    | PAfterLaunch | PMidConfigure => create w k
+    end in
+  let '(w2, c2) := subscribe (crash w1) in
+  (w2, c1 ++ c2).
+
 Definition step (w : world) (o : op) : world * list call :=
   match o with
   | OCreate k => create w k
@@ -247,6 +271,9 @@ Definition step (w : world) (o : op) : world * list call :=
     if alive_at t (w_master w) then
       (set_master_roster w (w_master w) (roster_deactivate [t] (w_roster w)), [])
     else (w, [])
+  | OLoseAnswers => (set_w_pending w [], [])
+  | OCrashLost p k => resubscribe_after_loss (crash_step w p k)
+  | OReconnectLost => resubscribe_after_loss (subscribe w)
   end.
 
 Fixpoint run (w : world) (ops : list op) : world * list call :=
@@ -366,11 +393,11 @@ Definition mon_op (fo tampered : bool) (id0 : N) (o : op) (before after : obs) :
   if demanded && negb (forallb (fun s => fst s && N.eqb (snd s) id0) (o_subs after)) then 1
   else if demanded && negb (option_eqb N.eqb (o_store after) (Some id0)) then 2
   else match o with
-       | OCrash _ _ =>
+       | OCrash _ _ | OCrashLost _ _ =>
          if demanded && negb (forallb (fun t => roster_has t (o_roster after)) (o_alive after)) then 3
          else if existsb (fun t => roster_locked t (o_roster after)) (o_kills after) then 5
          else 0
-       | OReconnect =>
+       | OReconnect | OReconnectLost =>
          if existsb (fun t => roster_locked t (o_roster before)) (o_kills after) then 4 else 0
        | _ => 0
        end.
@@ -403,16 +430,22 @@ Definition mon18 (c : c18_case) : N :=
    2 restart with live tasks at the master    3 restart / reconnection with nothing at stake
    4 the store was tampered with              5 failover disabled
    6 reconnection while a roster task locked by an environment is NOT active and alive at the
-     master (launch window, TASK_LOST) *)
+     master (launch window, TASK_LOST)
+   7 restart with live tasks at the master whose first reconciliation is lost *)
 Definition is_sub (o : op) : bool :=
-  match o with OReconnect | OCrash _ _ => true | _ => false end.
+  match o with OReconnect | OCrash _ _ | OCrashLost _ _ | OReconnectLost => true | _ => false end.
 
 Fixpoint tag_walk (ops : list op) (before : obs) (rest : list obs) : N :=
   match ops, rest with
   | o :: ops', after :: rest' =>
     let here :=
       match o with
-      | OReconnect =>
+      | OCrashLost p _ =>
+        match o_alive before, p with
+        | [], PIdle | [], PBeforeLaunch => 3
+        | _, _ => 7
+        end
+      | OReconnect | OReconnectLost =>
         if existsb (fun x => fst (snd x) && negb (snd (snd x)) && memN (fst x) (o_alive before)) (o_roster before) then 6
         else if existsb (fun x => fst (snd x) && snd (snd x)) (o_roster before) then 1 else 3
       | OCrash p _ =>
@@ -423,7 +456,8 @@ Fixpoint tag_walk (ops : list op) (before : obs) (rest : list obs) : N :=
       | _ => 0
       end in
     let later := tag_walk ops' after rest' in
-    if N.eqb here 6 then 6 else if N.eqb later 6 then 6
+    if N.eqb here 7 then 7 else if N.eqb later 7 then 7
+    else if N.eqb here 6 then 6 else if N.eqb later 6 then 6
     else if N.eqb here 1 then 1 else if N.eqb later 1 then 1
     else if N.eqb here 2 then 2 else if N.eqb later 2 then 2
     else N.max here later
@@ -452,7 +486,8 @@ Definition tame (o : op) : bool :=
   match o with
   | OCreate _ | OStart _ | ODestroy _ _ | ODie _ | OMesosState _ _ | OCleanup | OAnswer
   | OCreateHeld _ _ | ORun _ | OLost _ => true
-  | ODestroyStuck _ | OStoreSet _ | OReconnect | OCrash _ _ => false
+  | ODestroyStuck _ | OStoreSet _ | OReconnect | OCrash _ _
+  | OLoseAnswers | OCrashLost _ _ | OReconnectLost => false
   end.
 
 (* the next reconciliation answer makes handleMessage send KILL to a task that is in the roster,
